@@ -113,7 +113,15 @@ Fixpoint drive (fuel : nat) (paused : list nat) (s : rstate) (c : nat) : option 
   | S f =>
       match c_pc (r_cs s c) with
       | [] => Some s
-      | IPub e t (c' :: rem) :: _ => drive f paused (step s (LVisit c c' (obs_order c' (ev_id e)))) c
+      | IPub e t (c' :: rem) :: _ =>
+          (* Go's map iteration order is free: the copies that arrived were handed over in
+             the order they arrived; a copy that did not arrive was dropped on a full queue,
+             which is most likely right after the queue has filled up *)
+          let m := match reg_get c' (r_reg s) with Some m => m | None => [] end in
+          let obs := obs_order c' (ev_id e) in
+          let dropped := List.map fst (filter (fun kv => sub_matches e (snd kv) && negb (mem_str (fst kv) obs)) m) in
+          let room := (r_buf s - length (c_q (r_cs s c')))%nat in
+          drive f paused (step s (LVisit c c' (firstn room obs ++ dropped ++ skipn room obs))) c
       | IVisit e t c' ((sub, fs) :: _) :: _ =>
           if sub_matches e fs then
             if mem_str sub (obs_order c' (ev_id e)) then
